@@ -20,7 +20,7 @@ const CORPUS: &[(&str, &str)] = &[
     ("\\d*", ""), ("x*", ""), ("", ""), ("\\b", ""), ("^", "m"), ("$", ""), ("a|", ""), ("(?=.)", ""), ("é*", ""), ("𝒳*", "u"),
     ("\\d+", ""), ("\\s+", ""), ("[ab]", ""), ("a.c", ""), ("\"[^\"]*\"", ""), ("aa", ""), ("..", ""), ("(?<=a)b", ""), ("\\w+", "u"), ("(a)|(b)", ""),
 ];
-const HAYS: &[&str] = &["ab12cd", "", "x", "é", "𝒳é𝒳", "a \"b\" c \"d\" e \"f\" g", "aaaaaaaaaaaaaaaaaaaaa", "1𝒳1é1é \n𝒳", "ab\ncd\n", "ßaab 12 éé"];
+const HAYS: &[&str] = &["ab12cd", "", "x", "é", "𝒳é𝒳", "€a€", "aア", "1€", "a \"b\" c \"d\" e \"f\" g", "aaaaaaaaaaaaaaaaaaaaa", "1𝒳1é1é \n𝒳", "ab\ncd\n", "ßaab 12 éé"];
 
 fn check(ok: bool, what: &str) {
     if !ok {
